@@ -24,3 +24,42 @@ Theorem no_lost_invalidation_in_graph_partial :
   forall n to, In to (n_out (getN s n)) -> n_inv (getN s n) = true -> n_inv (getN s to) = true.
 Proof. exact quiescent_closed. Qed.
 Print Assumptions no_lost_invalidation_in_graph_partial.
+
+From Thunder Require Import Reactive.ProofsMutex.
+
+(** Mutex invariant: [computing r f] holds of the frame that stands for a computation of rerunner r in
+    progress (from BeginCompute until the publish step).  Under every schedule at most one exists: runs of one
+    rerunner never overlap. *)
+Theorem runs_never_overlap :
+  forall k progs s r, reachable (init k progs) s -> r < length (s_rrs s) ->
+  count (computing r) (all_frames s) <= 1.
+Proof. exact runs_never_overlap_lemma. Qed.
+Print Assumptions runs_never_overlap.
+
+(** Once the critical section of Stop has completed ([r_stop] set), in that state and in every state any
+    further schedule leads to: stop is still set and no task holds a frame of a run of r that is about to clean
+    the cache, about to begin a computation (so the BeginCompute label is not enabled), computing, publishing or
+    arming — only the deferred unlock of a run that found [stop] set can remain. *)
+Theorem after_stop :
+  forall k progs s r ls s', reachable (init k progs) s -> r < length (s_rrs s) ->
+  r_stop (getr s r) = true -> run s ls = Some s' ->
+  r_stop (getr s' r) = true /\ forall f, In f (all_frames s') -> runner r f = false.
+Proof.
+  intros k progs s r ls s' R Hr St Hrun.
+  assert (St' := run_stop_stable _ _ _ _ Hrun St). split; [exact St'|].
+  intros f Hf. eapply count_zero_not_in; [|exact Hf].
+  eapply after_stop_lemma; [eapply run_reachable; eauto | rewrite (run_rrs_length _ _ _ Hrun); exact Hr | exact St'].
+Qed.
+Print Assumptions after_stop.
+
+(** non-vacuity: a reachable state with a computation in progress, and one in which Stop has completed while a
+    run task is still around *)
+Example computing_state :
+  exists s, run (init 1 [([ODep 0], true)]) [LTask 0 0; LTask 0 0; LTask 0 0; LTask 0 0; LTask 0 0; LTask 0 0] = Some s /\
+            count (computing 0) (all_frames s) = 1.
+Proof. eexists. split; [vm_compute; reflexivity | vm_compute; reflexivity]. Qed.
+
+Example stopped_state :
+  exists s, run (init 1 [([ODep 0], true)]) [LTask 0 0; LStop 0; LTask 1 0; LTask 1 0] = Some s /\
+            r_stop (getr s 0) = true /\ s_tasks s <> [].
+Proof. eexists. split; [vm_compute; reflexivity | split; [vm_compute; reflexivity | vm_compute; discriminate]]. Qed.
